@@ -356,8 +356,13 @@ def make_agent_class():
             self.run._maybe_raise(self, "new", market)
 
         def process_closed_market(self, market, market_book):
-            self.calls.append(("closed", market.market_id, market_book.publish_time_epoch))
+            pt = market_book.get("_pt") if isinstance(market_book, dict) else market_book.publish_time_epoch
+            self.calls.append(("closed", market.market_id, pt))
             _dispatch("strategy_closed", self, market, market_book)
+
+        def process_raw_data(self, clk, publish_time, datum):
+            self.calls.append(("raw", datum.get("id"), publish_time))
+            self.run._maybe_raise(self, "raw", None)
 
         # -- script execution
         def _sync(self, market):
